@@ -347,8 +347,14 @@ func (g *Gen) newRef(prefix string) string {
 		g.vc.allocSet = map[string]bool{}
 	}
 	g.vc.allocSet[n] = true
-	// fresh objects are non-nil, pairwise distinct (distinct allocation ids) and marked fresh
-	g.vc.decls = append(g.vc.decls, fmt.Sprintf("(assert (and (> %s 0) (= (allocid$ %s) %d) (fresh$ %s)))", n, n, len(g.vc.allocs), n))
+	// fresh objects are non-nil and allocated after everything that existed before (allocation clock):
+	// this makes them distinct from earlier allocations, from pre-existing objects (time <= 0) and from
+	// loop-carried references (time < the loop's epoch)
+	if g.vc.clock == "" {
+		g.vc.clock = "0"
+	}
+	g.vc.lines = append(g.vc.lines, fmt.Sprintf("(assert (and (> %s 0) (> (allocid$ %s) %s) (fresh$ %s)))", n, n, g.vc.clock, n))
+	g.vc.clock = fmt.Sprintf("(allocid$ %s)", n)
 	return n
 }
 
@@ -394,7 +400,7 @@ func (g *Gen) indexAddr(fr *Frame, st *State, x *ssa.IndexAddr, r string) Val {
 		if fr.noPanic {
 			g.panicObl(fr, x, r, "index", fmt.Sprintf("(and (<= 0 %s) (< %s (slenS %s)))", idx, idx, base.T))
 		}
-		p := &Ptr{Kind: pElem, Arr: fmt.Sprintf("(sarr %s)", base.T), Idx: fmt.Sprintf("(+ (soff %s) %s)", base.T, idx), Ty: elT}
+		p := &Ptr{Kind: pElem, Arr: fmt.Sprintf("(sarr %s)", base.T), Idx: fmt.Sprintf("(idx$ (soff %s) %s)", base.T, idx), Ty: elT}
 		if base.Elems != nil {
 			if c, ok := x.Index.(*ssa.Const); ok {
 				if i, ok := constant.Int64Val(c.Value); ok && int(i) < len(base.Elems) {
@@ -1296,7 +1302,14 @@ func (g *Gen) guardedAccess(fr *Frame, st *State, p *Ptr, in ssa.Instruction, r,
 // preexisting: a reference read from a heap that has not been written since function entry denotes an object
 // that existed before the call, hence is different from everything allocated during it.
 func (g *Gen) preexisting(v Val) {
-	if v.S != "Int" || v.Ty == nil || g.dry > 0 {
+	if g.dry > 0 || v.Ty == nil {
+		return
+	}
+	if v.S == "Slice" && strings.HasPrefix(v.T, "(select H0$") && strings.Count(v.T, "(") == 1 {
+		g.vc.assume("", fmt.Sprintf("(<= (allocid$ (sarr %s)) 0)", v.T))
+		return
+	}
+	if v.S != "Int" {
 		return
 	}
 	switch types.Unalias(v.Ty).Underlying().(type) {
